@@ -10,6 +10,7 @@ def obligations(ctx):
     out += pick(flushspec.flush_task(ctx), [("B-1", "publish-guard")])
     out += pick(flushspec.index_save(ctx), [("B-2", "temp-fsync-rename"), ("B-2b", "rename-target")])
     out += pick(flushspec.index_load(ctx), [("B-2c", "stale-temp-removed")])
+    out += pick(flushspec.index_builder(ctx), [("B-2d", "index-rmw-under-lock")])
     ho = handoverspec.commit_batch(ctx)
-    out += pick(ho, [("B-3", "exists-before-index"), ("B-3b", "index-before-livelist")])
+    out += pick(ho, [("B-3", "exists-before-index"), ("B-3b", "index-before-livelist"), ("B-3c", "index-under-flush-lock")])
     return out
